@@ -16,5 +16,9 @@ theorem merge_left_wins_tie : Generated.C02.mergeLeftWinsTie = true := rfl
 theorem merge_blocks_shape_tie : Generated.C02.mergeBlocksShape = true := rfl
 theorem query_replace_strict_tie : Generated.C02.queryReplaceStrict = true := rfl
 theorem query_less_version_desc_tie : Generated.C02.queryLessVersionDesc = true := rfl
+theorem batch_rows_tie : Generated.C02.mergeBatchMaxRows = C02.cfg.batchRows := rfl
+/-- `mergeBatch` cuts a full batch only between data points (F57 repaired): the function `queryMergeBatch_spec` is about -/
+theorem batch_cut_tie : Generated.C02.batchCutBetweenPoints = C02.cfg.batchFinishRun := rfl
+theorem batch_replace_strict_tie : Generated.C02.batchReplaceStrict = true := rfl
 
 end Banyan.Tie.C02
